@@ -7,7 +7,8 @@
 (* followed by "run to quiescence": start a call of an iterator, Add at the   *)
 (* far end, remove at the near / far end, Close, cancel the context of a      *)
 (* blocked call, start / cancel a Queue.BlockingAdd (which shares the         *)
-(* condition variable of the Queue iterators).  `hist` records the step       *)
+(* condition variable of the Queue iterators), or two of Add / Remove / Close *)
+(* back to back with no quiescent point in between.  `hist` records the step  *)
 (* together with, for every call that was pending during the step,            *)
 (*     vals, errs, mayblock  the set of observations C20 allows (IterAbs)     *)
 (*     br                    the outcome this behaviour continues with        *)
@@ -151,8 +152,21 @@ StartBAdd == /\ setup.trk = "quota" /\ badd.st = "none" /\ Len(c.added) < MaxAdd
 CancelBAdd == /\ badd.st = "pend" /\ ~badd.canc
               /\ Settle(c, its, pend, canc, [badd EXCEPT !.canc = TRUE], "cancel", "", "badd", FALSE, "", {})
 
+\* two driver operations issued back to back, with no quiescent point in between: the second lands while the
+\* calls woken by the first are still on their way (Add then Close; Add then Remove; Remove then Add)
+DoOp(c1, o) == CASE o = "add" -> AAdd(c1, Val) [] o = "pop" -> APop(c1, "n") [] o = "close" -> AClose(c1)
+Burst(o1, o2) ==
+  /\ Len(c.added) < MaxAdds /\ ~c.closed
+  /\ badd.st = "none"      \* a pending BlockingAdd could take effect between the two (it changes the container)
+  /\ \E a \in DoOp(c, o1) : \E b \in DoOp(a.c, o2) :
+       LET popped == (o1 = "pop" /\ a.res # "none") \/ (o2 = "pop" /\ b.res # "none")
+           alw == UNION {{x.res \o "+" \o y.res : y \in DoOp(x.c, o2)} : x \in DoOp(c, o1)}
+       IN Settle(b.c, IF popped THEN [i \in Names |-> Taint(its[i])] ELSE its, pend, canc, badd,
+                 o1 \o "+" \o o2, Val, "", FALSE, a.res \o "+" \o b.res, alw)
+
 Driver == \/ \E i \in Names, h \in BOOLEAN : StartNext(i, h)
           \/ Add \/ Close \/ StartBAdd \/ CancelBAdd
+          \/ Burst("add", "close") \/ Burst("add", "pop") \/ Burst("pop", "add")
           \/ \E e \in {"n", "f"} : Pop(e)
           \/ \E i \in Names : Cancel(i)
 
